@@ -263,9 +263,34 @@ def execute(w, op):
             return "ok", info
         if kind == "merge":
             _, t, o, skip = op
-            info["merge"] = (t, o, skip, list(T(t).symbols), list(T(o).symbols),
-                             {id(s): s.name for s in T(t).symbols + T(o).symbols})
-            T(t).merge(T(o), symbols_to_skip=[w.objs[i] for i in skip])
+            osyms = list(T(o).symbols)
+            forbidden = set(T(o)._symbols.keys())
+            for tb in w.enclosing(t):
+                forbidden |= set(tb._symbols.keys())
+            info["merge"] = (t, o, skip, list(T(t).symbols), osyms,
+                             {id(s): s.name for s in T(t).symbols + osyms}, forbidden,
+                             {id(s): (s.is_import and not any(s.interface.container_symbol is x for x in osyms))
+                              for s in osyms},
+                             {id(s): s.is_import for s in osyms})
+            # observe every rename performed inside merge(): the generated name must be fresh at that moment
+            orig_rename = S.SymbolTable.rename_symbol
+            tself, tother, scopes = T(t), T(o), w.enclosing(t)
+            stale = []
+
+            def spy(table, symbol, name, dry_run=False):
+                if not dry_run and isinstance(name, str):
+                    taken = set(tother._symbols.keys())
+                    for tb in scopes:
+                        taken |= set(tb._symbols.keys())
+                    if name.lower() in taken:
+                        stale.append((symbol.name, name, sorted(taken)))
+                return orig_rename(table, symbol, name, dry_run=dry_run)
+            S.SymbolTable.rename_symbol = spy
+            info["stale"] = stale
+            try:
+                tself.merge(tother, symbols_to_skip=[w.objs[i] for i in skip])
+            finally:
+                S.SymbolTable.rename_symbol = orig_rename
             w.dead.add(o)
             info["merged"] = True
             return "ok", info
@@ -347,17 +372,26 @@ def clause_fresh(w, info, pre_keys):
 
 
 def clause_merge(w, info):
+    """merge-once and freshness of the renames of a successful merge.
+    Returns None or (clause, text, offending symbol)."""
     if not info.get("merged"):
         return None
     S = w.S
-    t, o, skip, self_pre, other_pre, names_pre = info["merge"]
+    t, o, skip, self_pre, other_pre, names_pre, forbidden = info["merge"][:7]
     now = list(w.tabs[t].symbols)
     skipobjs = [w.objs[i] for i in skip]
     pre_self_keys = {low(names_pre[id(s)]) for s in self_pre}
     pre_other_keys = {low(names_pre[id(s)]) for s in other_pre}
+    # every name generated for a rename must be fresh w.r.t. the receiving table, its enclosing scopes
+    # and the merged table as they were when the merge started
+    for s in self_pre + other_pre:
+        if s.name != names_pre[id(s)] and low(s.name) in forbidden:
+            return ("fresh", f"merge renamed {names_pre[id(s)]} to {s.name}, a name already used in the receiving "
+                    f"table, its enclosing scopes or the merged table: {sorted(forbidden)}", s)
     for s in self_pre:
         if sum(1 for x in now if x is s) != 1:
-            return f"symbol {names_pre[id(s)]} of the receiving table is present {sum(1 for x in now if x is s)} times"
+            return ("merge-once", f"symbol {names_pre[id(s)]} of the receiving table is present "
+                    f"{sum(1 for x in now if x is s)} times", s)
     for s in other_pre:
         cnt = sum(1 for x in now if x is s)
         if any(s is k for k in skipobjs):
@@ -365,41 +399,49 @@ def clause_merge(w, info):
         if cnt == 1:
             continue
         if cnt > 1:
-            return f"symbol {s.name} was added {cnt} times"
+            return ("merge-once", f"symbol {s.name} was added {cnt} times", s)
         same = [x for x in now if low(x.name) == low(names_pre[id(s)])]
+        # absorbed only by the entry that had that name BEFORE the merge
+        same = [x for x in same if any(x is y for y in self_pre) and low(names_pre[id(x)]) == low(names_pre[id(s)])]
         if isinstance(s, S.ContainerSymbol) and same and isinstance(same[0], S.ContainerSymbol):
             continue
         if s.is_import and same and same[0].is_import and same[0].interface == s.interface:
             continue
         if s.is_unresolved and same and same[0].is_unresolved:
             continue
-        return f"non-skipped symbol {names_pre[id(s)]} of the merged table is not in the result"
+        return ("merge-once", f"non-skipped symbol {names_pre[id(s)]} of the merged table is not in the result", s)
     for s in self_pre + other_pre:
         if s.name != names_pre[id(s)]:
             k = low(names_pre[id(s)])
             if not (k in pre_self_keys and k in pre_other_keys):
-                return f"symbol {names_pre[id(s)]} was renamed to {s.name} without a clash"
+                return ("merge-once", f"symbol {names_pre[id(s)]} was renamed to {s.name} without a clash", s)
     return None
 
 
 # --------------------------------------------------------------------------- known-finding classifiers
 
-def classify(w, op, info, clause, before, after):
+def classify(w, op, info, clause, outcome, before, after, culprit=None):
     """Which known defect class (if any) explains a failed clause of a merge."""
     if op[0] != "merge" or "merge" not in info:
         return None
     S = w.S
     _, t, o, skip = op
     other_syms = info["merge"][4]
-    outer = any(s.is_import and not any(s.interface.container_symbol is x for x in other_syms) for s in other_syms)
+
+    def outer_import(s):
+        return s.is_import and not any(s.interface.container_symbol is x for x in other_syms)
     if clause == "merge-once":
-        return "C16-merge-outer-import-dropped" if outer else None
+        # only the silent drop of a symbol that is itself imported from a container outside the merged table
+        if culprit is not None and any(culprit is x for x in other_syms) and info["merge"][7].get(id(culprit)) \
+                and "is not in the result" in info.get("why", ""):
+            return "C16-merge-outer-import-dropped"
+        return None
     if clause != "atomic":
         return None
-    if outer:
+    if outcome in ("err:Internal", "err:Key") and any(info["merge"][7].get(id(s)) for s in other_syms):
         return "C16-merge-import-from-outer-container"
     skipobjs = [w.objs[i] for i in skip]
-    if any(isinstance(s, S.ContainerSymbol) or s.is_import for s in skipobjs):
+    if outcome == "err:Symbol" and any(isinstance(s, S.ContainerSymbol) or info["merge"][8].get(id(s)) for s in skipobjs):
         return "C16-merge-skip-ignored-in-container-phase"
     strip = (lambda d: d.replace(":intrinsic:", ":K:").replace(":generic:", ":K:").replace(":routine:", ":K:"))
     if strip(before) == strip(after):
@@ -536,16 +578,34 @@ def gen_op(rng, w, malformed):
     return ["detach", t]
 
 
+FOCUS_BASES = ["sin", "m", "v", "a", "cos", "x"]
+
+
+def focus_name(rng, w, t, o):
+    """names from a pool of 2-3 bases per history, as the base itself or shaped like one of the candidates that
+    next_available_name would generate for a name already present in one of the two tables (<name>_1, <name>_2)"""
+    if not hasattr(w, "focus_pool"):
+        w.focus_pool = rng.sample(FOCUS_BASES, rng.choice([2, 2, 3]))
+    r = rng.random()
+    if r < 0.35:
+        present = [s.name for i in (t, o) for s in w.tabs[i]._symbols.values()]
+        if present:
+            return case_variant(rng, rng.choice(present).lower() + "_" + str(rng.choice([1, 1, 1, 2])))
+    b = rng.choice(w.focus_pool)
+    if r < 0.5:
+        b += rng.choice(["_1", "_1", "_2", "_1_1"])
+    return case_variant(rng, b)
+
+
 def gen_focus_op(rng, w, t, o):
-    """ops that populate the two tables of a coming merge with clashing names, containers, imports,
-    unresolved symbols and intrinsic names"""
+    """ops that populate the two tables of a coming merge (and their enclosing scopes) with clashing names,
+    names shaped like fresh-name candidates, containers, imports, unresolved symbols and intrinsic names"""
     S = w.S
-    pool = ["sin", "m", "v", "a", "cos"]
     r = rng.random()
     outer = [i for i, tb in enumerate(w.tabs) if any(tb is x for x in w.enclosing(o)[1:] + w.enclosing(t)[1:])]
-    where = rng.choice([t, o, t, o] + outer)
-    name = case_variant(rng, rng.choice(pool))
-    if r < 0.25:
+    where = rng.choice([t, o, t, o, o] + outer)
+    name = focus_name(rng, w, t, o)
+    if r < 0.2:
         return ["add", where, name, "container", "auto", rng.choice([0, 0, 1]), NONE]
     if r < 0.5:
         conts = [s for tb in w.enclosing(where) for s in tb._symbols.values()
@@ -554,11 +614,13 @@ def gen_focus_op(rng, w, t, o):
             c = rng.choice(conts)
             return ["add", where, name, rng.choice(["data", "generic", "routine"]),
                     ["imp", w.ids[id(c)], c.name, rng.choice([NONE, NONE, "orig"])], 0, NONE]
-    if r < 0.75:
+        if rng.random() < 0.6:
+            return ["add", where, case_variant(rng, rng.choice(w.focus_pool)), "container", "auto", rng.choice([0, 0, 1]), NONE]
+    if r < 0.68:
         return ["add", where, name, rng.choice(["generic", "generic", "routine", "data", "intrinsic"]), "unres", 0, NONE]
-    if r < 0.9:
+    if r < 0.92:
         return ["add", where, name, rng.choice(["data", "generic", "routine"]),
-                rng.choice(["auto", "auto", "arg", "static", "common"]), 0, rng.choice([NONE, NONE, "t1"])]
+                rng.choice(["auto", "auto", "auto", "arg", "static", "common"]), 0, rng.choice([NONE, NONE, "t1"])]
     return ["new", where, name, NONE, 0, rng.choice(["data", "generic"]), 1, "auto", 0]
 
 
@@ -601,7 +663,7 @@ def run_history(shape, extra, ops_or_gen, intr, rng=None, nops=0, malformed=Fals
         pairs = [(t, o) for t in live for o in live if o != t and leaf_scope(w, o)
                  and not any(w.tabs[o] is x for x in w.enclosing(t)) and not any(w.tabs[t] is x for x in w.enclosing(o))]
         if pairs:
-            focus = rng.choice(pairs) + (rng.randint(3, max(3, n - 3)),)
+            focus = rng.choice(pairs) + (rng.randint(min(5, max(3, n - 2)), max(3, n - 2)),)
     for k in range(n):
         if ops_or_gen is not None:
             op = ops_or_gen[k]
@@ -632,11 +694,17 @@ def run_history(shape, extra, ops_or_gen, intr, rng=None, nops=0, malformed=Fals
         why = clause_fresh(w, info, pre_keys)
         if why:
             problems.append((k, "fresh", why, None))
-        why = clause_merge(w, info)
-        if why:
-            problems.append((k, "merge-once", why, classify(w, op, info, "merge-once", before, after)))
+        if info.get("stale"):
+            a, b, taken = info["stale"][0]
+            problems.append((k, "fresh", f"merge renamed {a} to {b} although that name was in use at that moment in the "
+                             f"receiving table, its enclosing scopes or the merged table: {taken}", None))
+        res = clause_merge(w, info)
+        if res:
+            info["why"] = res[1]
+            problems.append((k, res[0], res[1],
+                             classify(w, op, info, res[0], outcome, before, after, culprit=res[2])))
         if outcome.startswith("err:") and before != after:
-            cls = classify(w, op, info, "atomic", before, after)
+            cls = classify(w, op, info, "atomic", outcome, before, after)
             problems.append((k, "atomic", f"rejected {op[0]} ({outcome}) changed the tables:\n  before {before}\n  after  {after}", cls))
             stop = True          # symbols may now be shared between two tables: outside the model's alphabet
         if outcome.startswith("err:Other"):
@@ -668,7 +736,9 @@ def run(chk):
     chk.cov["rule"] = ("histories of <=25 symbol-table operations generated online against the real tables over a forest "
                        "of 0-2 PSyIR trees (Routine / Container>Routine / ...>Loop>Schedule(>Loop>Schedule)) plus detached "
                        "tables; names from 9 bases with case variants and _1/_2 suffixes, 4 tags, 6 symbol kinds, 6 interfaces "
-                       "(incl. ImportInterface to a container in scope, wildcard containers, unresolved); a malformed stream "
+                       "(incl. ImportInterface to a container in scope, wildcard containers, unresolved); 60% of the histories set up a merge: "
+                       "2-3 bases per history, names shaped like the fresh-name candidates (<name>_1/_2) of symbols already present, "
+                       "as imports/locals/unresolved in either table and in enclosing scopes, in both orders; a malformed stream "
                        "uses arbitrary symbol objects; non-trivial = at least 4 distinct op kinds and one refusal or merge; "
                        "distinct by canonical JSON of the op list")
     chk.assumptions += [
@@ -686,12 +756,13 @@ def run(chk):
     # corpus first
     for c in corpus_cases():
         hist.append(run_history(c["shape"], c["extra"], c["ops"], intr))
-    n = 6000 if chk.tier == "thorough" else 700
+    n = 8000 if chk.tier == "thorough" else 1200
     for k in range(n):
         shape, extra = gen_world(chk.rng)
         malformed = chk.rng.random() < 0.15
-        hist.append(run_history(shape, extra, None, intr, rng=chk.rng, nops=chk.rng.randint(4, 25), malformed=malformed,
-                                focus_merge=(k % 2 == 1)))
+        focus = (k % 5 >= 2)
+        hist.append(run_history(shape, extra, None, intr, rng=chk.rng, nops=chk.rng.randint(8 if focus else 4, 25),
+                                malformed=malformed, focus_merge=focus))
     model = driver("C16", [line_of(h) for h in hist])
     known = {e["id"]: e for e in known_findings("C16")}
     dist, errs, seen_known = {}, {}, set()
@@ -716,12 +787,12 @@ def run(chk):
             return
         if not agreed:
             k = next((i for i, (a, b) in enumerate(zip(mouts, h["outs"])) if a != b), min(len(mouts), len(h["outs"])))
-            chk.correspondence_broken(
-                "SymbolTable history differs from C16.step at op %d (%s)" % (k, h["ops"][k][0] if k < len(h["ops"]) else "?"),
-                {"shape": h["shape"], "extra": h["extra"], "ops": h["ops"][:k + 1]},
-                mouts[k] if k < len(mouts) else None, h["outs"][k] if k < len(h["outs"]) else None)
-            if len(chk.broken) >= 3:
-                break
+            if len(chk.broken) < 3:     # keep looking for a failing input in the remaining histories
+                chk.correspondence_broken(
+                    "SymbolTable history differs from C16.step at op %d (%s)"
+                    % (k, h["ops"][k][0] if k < len(h["ops"]) else "?"),
+                    {"shape": h["shape"], "extra": h["extra"], "ops": h["ops"][:k + 1]},
+                    mouts[k] if k < len(mouts) else None, h["outs"][k] if k < len(h["outs"]) else None)
     chk.cov["distribution"] = {"ops": dist, "errors": errs, "known_classes_met_in_random_histories": sorted(seen_known)}
     # known findings: replay the witnesses
     for e in known.values():
